@@ -91,6 +91,8 @@ def oracle(case, out):
                                                                            fmt[0][:80], G.err_names(fmt[1])[:4])
     if extras.get('permall') != [b'true']:
         return 'purity: some insertion order of the same argument set gives a different result'
+    if extras.get('sharederrs') not in (None, [b'true']):
+        return 'purity: with ONE error vector shared by consecutive format/write calls, a later call appended different errors than the first'
     return None
 
 
